@@ -309,7 +309,7 @@ NUM_HEADER = ("script;\nuse std::u128::{U128, U128Error};\nuse std::math::*;\nus
 
 
 # ----------------------------------------------------------------------------- packages
-def coll_packages(recs, prefix, per_pkg=400):
+def coll_packages(recs, prefix, per_pkg=1500):
     """recs: history records (each gets rec["id"] = its test key). Returns list of vh-exec package records and
     a map (pkgid, testname) -> rec."""
     groups = {}
@@ -328,7 +328,7 @@ def coll_packages(recs, prefix, per_pkg=400):
     return pkgs, where
 
 
-def num_packages(cases, prefix, per_pkg=500):
+def num_packages(cases, prefix, per_pkg=2000):
     pkgs, where = [], {}
     cases = sorted(cases, key=lambda c: (c["ty"], c["op"], c["mode"], c["t2"], c["a"], c["b"], c["n"]))
     for b in range(0, len(cases), per_pkg):
